@@ -77,4 +77,19 @@ let run (_prefix : string) (cfg : config) (parts : string list) (_src : string)
             ("required_sample", JL (List.map js (List.filteri (fun k _ -> k < 4) req)));
             ("missing_sites", JL (List.map js miss)) ]
       | _, _ -> []) in
-  hooks @ classes @ directives @ erase_part @ sites_part
+  let hygiene_part =
+    on parts "hygiene" (fun () ->
+      let one name = function
+        | None -> []
+        | Some t ->
+            [ (name ^ "_hygiene",
+               JL (List.map (fun (k, n) -> JL [ JS (implode k); JS (implode n) ])
+                     (hygiene_issues (var_prefix cfg) t))) ] in
+      one "out" ast_out @ one "reparsed" ast_reparsed) in
+  let shapes_part =
+    on parts "shapes" (fun () ->
+      let one name = function
+        | None -> []
+        | Some t -> [ (name ^ "_shapes", strs (shape_issues (var_prefix cfg) t)) ] in
+      one "out" ast_out) in
+  hooks @ classes @ directives @ erase_part @ sites_part @ hygiene_part @ shapes_part
